@@ -1320,6 +1320,9 @@ func (m *Machine) convert(v Value, from, to types.Type) Value {
 				// []byte or []rune -> string
 				el := fu.(*types.Slice).Elem().Underlying().(*types.Basic)
 				if el.Kind() == types.Uint8 {
+					if x.Dec != nil {
+						return StringV{DecOf: x.Dec, Opaque: m.TT.UF("$decstr", BV(64), x.Dec)}
+					}
 					return StringV{B: m.bytesOfSlice(x)}
 				}
 				panic(m.unsupported("[]rune to string"))
@@ -1331,6 +1334,9 @@ func (m *Machine) convert(v Value, from, to types.Type) Value {
 		}
 	case *types.Slice:
 		if s, ok := v.(StringV); ok {
+			if s.DecOf != nil {
+				return SliceV{SymLen: m.TT.Sym(m.nextName("$declen"), BV(64)), Dec: s.DecOf}
+			}
 			if s.Opaque != nil {
 				panic(m.unsupported("opaque string to []byte"))
 			}
